@@ -134,6 +134,9 @@ def correspond(ctx):
         p = geomgen.gen_any(rng, k + 1, quick=True)
         if k % 4 == 3:
             p = geomgen.fam_rounded(rng, ["fee", "feh", "fem"][k % 3], True)
+        if k % 4 == 1:
+            # long lines with a very short chamfer / step that carries its own (finer) spacing
+            p = geomgen.fam_chamfer(rng, ["fee", "feh", "fem"][(k // 4) % 3], True)
         if k >= count - 4:
             # (anti)periodic partner arcs asking for different segment angles, finer one listed first / second
             j = k - (count - 4)
